@@ -12,6 +12,8 @@ os.environ.setdefault('CGSMILES_VERIF', '1')
 # where evidence/ and replays/ are written (scratch runs against mutated trees redirect it)
 OUT = os.environ.get('VERIF_OUT', VERIF)
 DEPS = os.path.join(VERIF, '.deps')
+if not os.path.isdir(DEPS) and os.path.isdir('/verif/.deps'):
+    DEPS = '/verif/.deps'       # background snapshots of /verif do not contain untracked files
 if os.path.isdir(DEPS) and DEPS not in sys.path:
     sys.path.append(DEPS)
 if TREE not in sys.path:
